@@ -35,7 +35,7 @@ CLAIMED = {
         note=COMMON_NOTE + "The model's events are atomic with respect to each other because the session actor is a single task; fibre channels are assumed FIFO.",
         design="§8 C01"),
     "C02": dict(
-        engine="M6 Multipart + M2 Engine",
+        engine="M6 Multipart + M14 FrameWise + M2 Engine",
         technique="Lean 4 theorems: invariant by induction over every history of the receive-side stash (registration, arrival, recv, recv_multipart, "
                   "detach), MORE-flag normalisation lemmas, a frame-count limit chain, and an engine invariant (only whole messages are delivered) lifted "
                   "through step/run/feedAll; tie: translator re-extracts the stash/normalisation/limit shape of the sources (theorems "
@@ -46,7 +46,9 @@ CLAIMED = {
              "are mixed; every recv_multipart() result ends a message; per-pipe FIFO; one send_multipart call puts one well-formed message on the wire "
              "with payloads untouched; the frame limits of sender API, DEALER buffering, receiving engine and message container fit together; the "
              "engine hands over only whole messages within the limit for every byte stream and segmentation; the two earlier shapes (stash cleared on "
-             "detach, recv_multipart ignoring the stash) are proved unsafe by explicit traces. 13 theorems. Partial: DEALER's and ROUTER's own stash "
+             "detach, recv_multipart ignoring the stash) are proved unsafe by explicit traces. a PUSH fed frame by frame (or with whole send_multipart calls in between, or with messages beyond the frame limit) hands only whole "
+             "messages to its peers, each to one peer, for every sequence of calls and any number of peers (counterexample theorem for "
+             "per-frame load balancing). 16 theorems. Partial: DEALER's and ROUTER's own stash "
              "code is tied by pattern flags and stack scenarios rather than a component run; ROUTER's frame-by-frame send() path can still put more "
              "than the limit on the wire (the receiver then closes the connection, which the property allows).",
         note=COMMON_NOTE + "The ready-pipe queue is modelled sequentially here (its concurrency is C08's subject).",
